@@ -48,6 +48,15 @@ var c12Pipelines = []string{
 	`numbers(a+3).merge(numbers(3),(p,q)->p.k<q).size()`,
 	`numbers(a+3).merge(numbers(3),(p,q)->7).size()`,
 	`numbers(n).accept(x->x>a).indexWhere(x->x>a+2)`,
+	// a Go panic inside the function of a stage that feeds multiUse or merge (host function, runaway recursion)
+	`try numbers(5).number((i,x)->boom(x)).multiUse({f:l->l.size(),s:l->l.first()}).f catch 0`,
+	`try numbers(5).combine((p,q)->boom(p)).multiUse({f:l->l.size(),s:l->l.top(2).size()}).s catch 0`,
+	`try numbers(5).iir(x->x,(x,o)->boom(o)).merge(numbers(5),(p,q)->p<q).size() catch 0`,
+	`try numbers(5).map(x->x+a).multiUse({f:l->l.number((i,x)->boom(x)).size(),s:l->l.size()}).s catch 0`,
+	// lists of known large size with an early stopping consumer
+	`numbers(20000).map(x->x+a).first()`,
+	`numbers(10000).map(x->x*2).top(3+a).size()`,
+	`numbers(12000).accept(x->x>a).present(x->x>5)`,
 	// early stopping consumers and failing elements behind a stage that has switched to parallel workers
 	`numbers(40).map(x->slow(x)).top(20+a).size()`,
 	`numbers(40).map(x->slow(x)).indexWhere(x->x=20+a)`,
@@ -99,6 +108,9 @@ func c12Run(job string) {
 	kind, rest := split2(job)
 	if kind == "eval" {
 		fg := value.New()
+		fg.AddStaticFunction("boom", funcGen.Function[value.Value]{
+			Func: func(st funcGen.Stack[value.Value], cs []value.Value) (value.Value, error) { panic("host function panics") },
+			Args: 1, IsPure: false})
 		// slow(x): 400us of virtual time, forces the switch of map/accept to parallel workers
 		fg.AddStaticFunction("slow", funcGen.Function[value.Value]{
 			Func: func(st funcGen.Stack[value.Value], cs []value.Value) (value.Value, error) {
